@@ -32,6 +32,7 @@ vector<string> ApplicationTools::matchingParameters(const string& pattern, const
   for (const auto& it : params)
   {
     StringTokenizer stj(pattern, "*", true, false);
+    bool noWildcard = (stj.numberOfRemainingTokens() == 1); // the name must then equal the pattern
     size_t pos1, pos2;
     string parn = it.first;
     bool flag(true);
@@ -52,7 +53,7 @@ vector<string> ApplicationTools::matchingParameters(const string& pattern, const
       pos1 = pos2 + g.length();
     }
     if (flag &&
-        ((g.length() == 0) || (pos1 == parn.length()) || (parn.rfind(g) == parn.length() - g.length())))
+        ((pos1 == parn.length()) || (!noWildcard && ((g.length() == 0) || (parn.rfind(g) == parn.length() - g.length())))))
       retv.push_back(parn);
   }
 
@@ -66,6 +67,7 @@ vector<string> ApplicationTools::matchingParameters(const string& pattern, vecto
   for (size_t i = 0; i < params.size(); i++)
   {
     StringTokenizer stj(pattern, "*", true, false);
+    bool noWildcard = (stj.numberOfRemainingTokens() == 1); // the name must then equal the pattern
     size_t pos1, pos2;
     string parn = params.at(i);
     bool flag(true);
@@ -86,7 +88,7 @@ vector<string> ApplicationTools::matchingParameters(const string& pattern, vecto
       pos1 = pos2 + g.length();
     }
     if (flag &&
-        ((g.length() == 0) || (pos1 == parn.length()) || (parn.rfind(g) == parn.length() - g.length())))
+        ((pos1 == parn.length()) || (!noWildcard && ((g.length() == 0) || (parn.rfind(g) == parn.length() - g.length())))))
       retv.push_back(parn);
   }
 
